@@ -121,11 +121,15 @@ const (
 func reserve(port int) bool {
 	os.MkdirAll(portDir, 0o777) //nolint:errcheck
 	name := filepath.Join(portDir, strconv.Itoa(port))
+	// the lock file appears atomically with its content (hard link of a private temp file), so that a
+	// concurrent process never sees an empty file and mistakes it for a stale one
+	tmp := filepath.Join(portDir, fmt.Sprintf(".tmp-%d-%d", os.Getpid(), port))
+	if err := os.WriteFile(tmp, []byte(strconv.Itoa(os.Getpid())), 0o666); err != nil {
+		return false
+	}
+	defer os.Remove(tmp)
 	for attempt := 0; attempt < 2; attempt++ {
-		f, err := os.OpenFile(name, os.O_CREATE|os.O_EXCL|os.O_WRONLY, 0o666)
-		if err == nil {
-			fmt.Fprintf(f, "%d", os.Getpid())
-			f.Close()
+		if err := os.Link(tmp, name); err == nil {
 			return true
 		}
 		b, rerr := os.ReadFile(name)
@@ -133,15 +137,13 @@ func reserve(port int) bool {
 			continue
 		}
 		pid, _ := strconv.Atoi(strings.TrimSpace(string(b)))
-		if pid == os.Getpid() {
-			return false // already handed out by this process
+		if pid <= 0 || pid == os.Getpid() {
+			return false // ours already, or unreadable: leave it alone
 		}
-		if pid > 0 {
-			if _, serr := os.Stat(fmt.Sprintf("/proc/%d", pid)); serr == nil {
-				return false // owner alive
-			}
+		if _, serr := os.Stat(fmt.Sprintf("/proc/%d", pid)); serr == nil {
+			return false // owner alive
 		}
-		os.Remove(name) // stale
+		os.Remove(name) // owner gone: stale
 	}
 	return false
 }
